@@ -208,13 +208,15 @@ def _tree_types(types):
     return (dict, Dict, dictattr) if types is None else as_tuple(types)
 
 
-def _tree_setitem(tree, item, base, ignore, types):
+def _tree_setitem(tree, item, base, ignore, types, copy_branches = False):
     if len(item)<2:
         raise ValueError('node item too short %s'%item)
     res = tree
     for key in item[:-2]:
         if key not in res or not isinstance(res[key], types):
             res[key] = base()
+        elif copy_branches: # tree is a shallow copy: do not write into branches still shared with the original
+            res[key] = copy(res[key])
         res = res[key]
     if item[-2] in res and in_(item[-1], ignore):
         return
@@ -484,7 +486,7 @@ def items_to_tree(items, tree = None, raise_if_duplicate = True, ignore = None, 
     base = type(tree)
     ignore = as_list(ignore)
     for item in items:
-        _tree_setitem(tree, item, base, ignore, types)
+        _tree_setitem(tree, item, base, ignore, types, copy_branches = True)
     return tree
 
 def tree_update(tree, update, types = (dict, Dict, dictattr), ignore = None):
